@@ -10,6 +10,7 @@ import TzVerif.Model.Find
 import TzVerif.Spec.Calendar
 import TzVerif.Proofs.Zoned
 import TzVerif.Proofs.SrcEqZone
+import TzVerif.Proofs.SrcEqFind
 
 namespace TzVerif.C14
 open TzVerif.Model TzVerif.Gen TzVerif.Proofs
@@ -101,5 +102,16 @@ theorem new_correct_src (y mo d h mi s ns : Int) (l : LocalTimeType) :
 theorem projection_src (d : DateTime) (z : TimeZone) (x : DateTime) (hx : Src.DateTime.project d z = .ok x) :
     Inv x ∧ x.unixTime = d.unixTime ∧ x.nanoseconds = d.nanoseconds ∧ d.beq x = true ∧ d.cmp x = 0 :=
   projection d z x (SrcEq.dt_project_eq d z ▸ hx)
+
+/-- `search_entries` about the translated search (src/datetime/find.rs `find_date_time`) -/
+theorem search_entries_src (y mo d h mi s ns : Int) (z : TimeZone) (rs : List Found) (hh : 0 ≤ h) (hmi : 0 ≤ mi) (hs : 0 ≤ s)
+    (hr : Src.find_date_time [] y mo d h mi s ns z = .ok rs) (f : Found) (hf : f ∈ rs) :
+    match f with
+      | .normal x => Inv x
+      | .skipped b a => Inv b ∧ Inv a := by
+  have h := search_entries y mo d h mi s ns z rs hh hmi hs (SrcEq.find_date_time_eq y mo d h mi s ns z ▸ hr) f hf
+  cases f with
+  | normal x => exact h.1
+  | skipped b a => exact ⟨h.1, h.2.1⟩
 
 end TzVerif.C14
